@@ -254,7 +254,11 @@ func ParentMain(id, tier string) int {
 			defer wg.Done()
 			sem <- struct{}{}
 			defer func() { <-sem }()
+			t0 := time.Now()
 			results[i] = runWorker(self, id, tier, i, n, false)
+			if os.Getenv("VERIF_DEBUG") != "" {
+				fmt.Fprintf(os.Stderr, "shard %d/%d: %.1fs\n", i, n, time.Since(t0).Seconds())
+			}
 			if results[i].crashed && os.Getenv("VERIF_NOJOURNAL") == "" {
 				j := runWorker(self, id, tier, i, n, true)
 				results[i].lastCase = j.lastCase
@@ -338,6 +342,11 @@ func ParentMain(id, tier string) int {
 		}
 	}
 	_ = os.MkdirAll(filepath.Join(Root, "replays"), 0o755)
+	if old, _ := filepath.Glob(filepath.Join(Root, "replays", id+"-*.json")); len(old) > 0 {
+		for _, f := range old {
+			_ = os.Remove(f) // replays of earlier runs of this property are stale
+		}
+	}
 	maxRep := 40
 	for i, s := range unlisted {
 		f := merged.Fails[s]
